@@ -79,7 +79,10 @@ def forced_of(g, start):
         elif s == "subline":
             out.append(st != 0)
         elif s == "subline+page_by":
-            out.append(st == "s")
+            # documented (RTFBody: "Pagination is automatically enabled (new_page=True)" when using subline_by;
+            # property mechanism: SublineStrategy.paginate passes new_page=True): a page_by change is a forced
+            # break as well whenever subline_by is in use
+            out.append(st != 0)
         elif s == "page_by" and g["new_page"]:
             out.append(st != 0)
         else:
@@ -94,14 +97,21 @@ def simulate(g, hist, start, forced, K, sc, cc, dbl=False):
     L = g["L"]
     has_pb = sc != "none"
 
-    def rendered(st):
-        if not has_pb or st == 0:
+    same_pb = set()
+    if g["strategy"] == "subline+page_by" and has_pb:
+        # a subline_by change under which the page_by value stays what it was: the page_by heading at the
+        # top of the new page is the re-emission of a running group (a continuation), not a group start
+        pb, _, _ = P.keys_of(g, hist)
+        same_pb = {i for i in range(1, len(hist)) if start[i] == "s" and all(col[i] == col[i - 1] for col in pb)}
+
+    def rendered(st, i=None):
+        if not has_pb or st == 0 or i in same_pb:
             return 0
         return L if st == "s" else L - st + 1
 
     costs = []
-    for (h, _, _), st in zip(hist, start):
-        r = rendered(st)
+    for i, ((h, _, _), st) in enumerate(zip(hist, start)):
+        r = rendered(st, i)
         c = h + (0 if r == 0 else (1 if sc == "one" else r))
         if dbl and st != 0 and (g["strategy"] == "subline" or st == "s"):
             c += 1
@@ -110,7 +120,7 @@ def simulate(g, hist, start, forced, K, sc, cc, dbl=False):
     def top_cost(i):
         if not has_pb or cc == "zero":
             return 0
-        return L - rendered(start[i])  # headings shown at the page top that the start cost did not charge
+        return L - rendered(start[i], i)  # headings shown at the page top that the start cost did not charge
 
     return P.greedy_pages(costs, forced, K, top_cost)
 
@@ -309,22 +319,26 @@ def gammas(run):
         return [RES_SETS[(seed + j * 5) % 12] for j in range(k)] + [RES_SETS[8]]
 
     # plain
+    # (thorough sizes are chosen so that the whole tier, about 1.2 million documents, completes inside its budget:
+    #  an exploration that stops at the budget is not exhaustive and says so)
+    half = [RES_SETS[i] for i in (0, 2, 5, 8, 9, 11)]
+    quarter = [RES_SETS[i] for i in (0, 5, 8, 11)]
     for nrow in (range(2, 9) if quick else list(range(2, 13)) + [16, 30]):
-        for hm, fn, src in res_pick(3):
-            out.append(({"strategy": "plain", "nrow": nrow, "header": hm, "footnote": fn, "source": src}, [1, 2, 3], 5 if quick else 7))
+        for hm, fn, src in (res_pick(3) if quick else half):
+            out.append(({"strategy": "plain", "nrow": nrow, "header": hm, "footnote": fn, "source": src}, [1, 2, 3], 5 if quick else 6))
     # page_by 1 level, new_page off / on
-    for nrow in ((3, 4, 6) if quick else (2, 3, 4, 5, 6, 8, 12, 30)):
-        for hm, fn, src in res_pick(1):
+    for nrow in ((3, 4, 6) if quick else (3, 4, 5, 6, 8)):
+        for hm, fn, src in (res_pick(1) if quick else quarter):
             for np_, pr in ((False, "column"), (True, "first_row"), (True, "column")):
                 if quick and np_ and pr == "column" and nrow != 4:
                     continue
                 out.append(({"strategy": "page_by", "L": 1, "nrow": nrow, "header": hm, "footnote": fn, "source": src,
-                             "new_page": np_, "pageby_row": pr}, [1, 2] if quick else [1, 2, 3], 5 if quick else 6))
+                             "new_page": np_, "pageby_row": pr}, [1, 2] if quick else [1, 2, 3], 5))
     # page_by 2 and 3 levels
-    for L, nrows, hs, depth in ((2, (4, 6) if quick else (3, 4, 5, 6, 8, 12), [1, 2], 4 if quick else 5),
+    for L, nrows, hs, depth in ((2, (4, 6) if quick else (4, 5, 6, 8), [1, 2], 4 if quick else 5),
                                 (3, (6,) if quick else (5, 6, 8), [1, 2] if not quick else [1], 4)):
         for nrow in nrows:
-            for hm, fn, src in res_pick(0) if quick else [RES_SETS[0], RES_SETS[8], RES_SETS[11]]:
+            for hm, fn, src in res_pick(0) if quick else ([RES_SETS[0], RES_SETS[8]] if L == 2 else [RES_SETS[0], RES_SETS[8], RES_SETS[11]]):
                 for rep in (True, False):
                     out.append(({"strategy": "page_by", "L": L, "nrow": nrow, "header": hm, "footnote": fn, "source": src,
                                  "inner_repeat": rep}, hs, depth))
@@ -333,15 +347,19 @@ def gammas(run):
         out.append(({"strategy": "page_by", "L": 1, "nrow": nrow, "header": "none", "new_page": True, "pageby_row": "first_row", "recur": True}, [1], 5))
         out.append(({"strategy": "subline", "L": 1, "nrow": nrow, "header": "none", "recur": True}, [1], 5))
     # subline_by
-    for nrow in ((3, 4, 6) if quick else (3, 4, 5, 6, 8, 12, 30)):
-        for hm, fn, src in res_pick(1):
+    for nrow in ((3, 4, 6) if quick else (3, 4, 5, 6, 8)):
+        for hm, fn, src in (res_pick(1) if quick else quarter):
             out.append(({"strategy": "subline", "L": 1, "nrow": nrow, "header": hm, "footnote": fn, "source": src},
-                        [1, 2] if quick else [1, 2, 3], 5 if quick else 6))
+                        [1, 2] if quick else [1, 2, 3], 5))
     # subline_by + page_by
-    for nrow in ((5,) if quick else (4, 5, 6, 8)):
-        for hm, fn, src in res_pick(0) if quick else [RES_SETS[0], RES_SETS[8]]:
-            out.append(({"strategy": "subline+page_by", "L": 1, "nrow": nrow, "header": hm, "footnote": fn, "source": src},
-                        [1, 2], 4 if quick else 5))
+    # (nrow chosen so that the capacity left after header/footnote/source/subline reservations is >= 3:
+    #  with capacity 1 every policy yields one row per page and nothing is decided)
+    for nrow, rs in (((4, RES_SETS[0]), (7, RES_SETS[8])) if quick else
+                     [(n, r) for n in (4, 5, 6, 8) for r in (RES_SETS[0], RES_SETS[8]) if n - r_max({"strategy": "subline+page_by", "header": r[0], "footnote": r[1], "source": r[2]}) >= 2]
+                     + [(7, RES_SETS[8]), (9, RES_SETS[8])]):
+        hm, fn, src = rs
+        out.append(({"strategy": "subline+page_by", "L": 1, "nrow": nrow, "header": hm, "footnote": fn, "source": src},
+                    [1, 2], 5))
     return out
 
 
